@@ -338,8 +338,11 @@ def run(chk, repo):
     icfg = CFG(ip.node)
     loop = next((n for n in walk_no_nested(ip.node) if isinstance(n, ast.For)), None)
     after = ip.node.body[ip.node.body.index(loop) + 1:]
-    ok = len(after) == 1 and isinstance(after[0], ast.If) and unparse(after[0].test) in ('pointer is not None', 'pointer') \
-        and [norm_stmt(s) for s in after[0].body] == ['yield pointer']
+    pn_ = sorted({n.targets[0].id for n in ast.walk(loop) if isinstance(n, ast.Assign) and len(n.targets) == 1 and isinstance(n.targets[0], ast.Name)
+                  and isinstance(n.value, ast.Call) and call_name(n.value) == 'GVFPointer'})
+    PN = pn_[0] if len(pn_) == 1 else 'pointer'
+    ok = len(after) == 1 and isinstance(after[0], ast.If) and unparse(after[0].test) in (f'{PN} is not None', PN, f'not {PN} is None') \
+        and [norm_stmt(s) for s in after[0].body] == [f'yield {PN}']
     chk.ob('C13.e', 'trailing pointer is yielded after the loop', repo.loc(ip, loop), ok,
            'the last run of records gets no pointer (its transcript is invisible through the index)', key=ip.qual + '::drain', fn=ip.qual)
     pointer_runs(chk, repo, 'C13.e', ip, loop)
@@ -470,7 +473,32 @@ def pointer_runs(chk, repo, rid, ip, loop):
             if any(isinstance(s_, ast.Assign) and unparse(s_.targets[0]) == a_ and isinstance(s_.value, ast.Constant) and s_.value.value is None for s_ in ip.node.body):
                 CK, K = a_, b_
     ok_run = CK is not None
-    if ok_run:
+    if CK is None:
+        # second shape: no separate "current key" local - the open pointer itself carries the key of the current run:
+        #   open under (P is None or P.key != K), extend under P.key == K, yield the previous one under P is not None and P.key != K
+        pa_ = [n for n in ast.walk(loop) if isinstance(n, ast.Assign) and len(n.targets) == 1 and isinstance(n.targets[0], ast.Name)
+               and isinstance(n.value, ast.Call) and call_name(n.value) == 'GVFPointer']
+        if len(pa_) == 1 and isinstance(kwarg(pa_[0].value, 'key'), ast.Name):
+            P_, K2 = pa_[0].targets[0].id, kwarg(pa_[0].value, 'key').id
+
+            def fx_at(pred):
+                return [(st, fx) for st, fx in sem.facts_where(ip.node, pred) if fx is not None and any(st is x for x in ast.walk(loop))]
+            samek = ast.parse(f"{P_} is not None and {P_}.key == {K2}", mode='eval').body
+            opens2 = fx_at(lambda st: st is pa_[0])
+            exts2 = fx_at(lambda st: isinstance(st, ast.Assign) and isinstance(st.targets[0], ast.Attribute) and st.targets[0].attr == 'end' and unparse(st.targets[0].value) == P_)
+            ylds2 = fx_at(lambda st: isinstance(st, ast.Expr) and isinstance(st.value, ast.Yield))
+            ok2 = len(opens2) == 1 and opens2[0][1].known(samek) is False and len(exts2) == 1 and exts2[0][1].known(samek) is True \
+                and len(ylds2) == 1 and unparse(ylds2[0][0].value.value) == P_ and ylds2[0][1].known(f"{P_} is not None") is True and ylds2[0][1].known(samek) is False
+            # the previous pointer is yielded before it is replaced
+            if ok2:
+                ch2 = sem.block_chains(ip.node)
+                ok2 = ylds2[0][0].lineno < pa_[0].lineno
+            chk.ob(rid, 'new pointer [line_start, line_end) on key change (previous yielded); end extended on equal key', repo.loc(ip, loop), ok_iv and ok2,
+                   'pointer open/extend/yield logic altered' + (': ' + det if det else ''), key=ip.qual + '::open-extend', fn=ip.qual)
+            CK = False
+    if CK is False:
+        pass
+    elif ok_run:
         same = sem.lit(f"{CK} == {K}")
         def at(pred):
             return [(st, sem.sure_literals(fx)) for st, fx in sem.facts_where(ip.node, pred) if fx is not None and any(st is x for x in ast.walk(loop))]
@@ -490,8 +518,9 @@ def pointer_runs(chk, repo, rid, ip, loop):
         if ok_run:
             c_ = sem.calls_in_stmt(opens[0][0], 'GVFPointer')[0]
             ok_run = kwarg(c_, 'key') is not None and unparse(kwarg(c_, 'key')) in (CK, K)
-    chk.ob(rid, 'new pointer [line_start, line_end) on key change (previous yielded); end extended on equal key', repo.loc(ip, loop), ok_iv and ok_run,
-           'pointer open/extend/yield logic altered' + (': ' + det if det else ''), key=ip.qual + '::open-extend', fn=ip.qual)
+    if CK is not False:
+        chk.ob(rid, 'new pointer [line_start, line_end) on key change (previous yielded); end extended on equal key', repo.loc(ip, loop), ok_iv and ok_run,
+               'pointer open/extend/yield logic altered' + (': ' + det if det else ''), key=ip.qual + '::open-extend', fn=ip.qual)
 
 
 def byte_offsets(chk, repo, rid, qual):
